@@ -99,3 +99,71 @@ Example C02_nonvacuous :
   length all_objs = 23%nat /\ In Variant all_objs /\ Variant <> InplaceVectorTrivial /\ Variant <> InplaceVectorNonTrivial /\
   default_obs Variant = Ok [0; 0] /\ default_obs_poisoned InplaceVectorNonTrivial = [255; 0].
 Proof. repeat split; try reflexivity; try discriminate. vm_compute. tauto. Qed.
+
+(* ---- alignment: "no undefined behaviour" includes that an element is only ever created / accessed at an address that is a
+   multiple of alignof(T).  Model: C02/ModelAlign.v (the data-member declarations of the library's in-object storages under
+   the C++ object layout rules); the correspondence run (props/C02/align.cpp) compares alignof / sizeof / slot offsets /
+   placement offsets of the compiled containers with this model and places them at the least aligned legal addresses, also
+   under -fsanitize=alignment. *)
+From Tetl Require Import C02.ModelAlign C02.ProofsAlign.
+
+(* For EVERY storage family of the library (static_vector and inplace_vector in both storages, uninitialized_array in both
+   specialisations, aligned_storage, aligned_union, optional, variant, expected (value and error), inplace_function with
+   explicit and default Alignment), every element type (any size > 0 that is a multiple of its alignment 2^k: ordinary and
+   over-aligned), every capacity and every address [base] the container may legally have (a multiple of ITS alignment,
+   which is computed from the member declarations): every slot i is inside the object and at a multiple of alignof(T) --
+   the access is [Aligned], never [Misaligned] / [Outside] -- and the container is at least as aligned as its elements.
+   Second conjunct: the small general theorem behind it (over base address, slot size, index): a slot array that lives in a
+   data member at least as aligned as the element type, with aligned inner offset and stride, inside that member, of an
+   object at a multiple of the object's own alignment. *)
+Theorem C02_element_slots_aligned :
+  (forall f e n base i, elem_wf e -> family_ok f e n ->
+     base mod al (st_al (storage_of f e n)) = 0 -> 0 <= i < st_count (storage_of f e n) ->
+     (access_slot (storage_of f e n) e base i = Aligned (slot_addr (storage_of f e n) base i) /\
+      slot_addr (storage_of f e n) base i mod al (e_al e) = 0 /\
+      base <= slot_addr (storage_of f e n) base i /\
+      slot_addr (storage_of f e n) base i + e_size e <= base + st_size (storage_of f e n)) /\
+     (e_al e <= st_al (storage_of f e n))%nat /\ al (st_al (storage_of f e n)) mod al (e_al e) = 0) /\
+  (forall s e base i m,
+     elem_wf e -> nonneg (st_members s) -> nth_error (st_members s) (st_slot s) = Some m ->
+     (e_al e <= m_al m)%nat -> 0 <= st_inner s -> st_inner s mod al (e_al e) = 0 -> st_stride s mod al (e_al e) = 0 ->
+     e_size e <= st_stride s -> st_inner s + st_count s * st_stride s <= m_size m ->
+     base mod al (st_al s) = 0 -> 0 <= i < st_count s ->
+     access_slot s e base i = Aligned (slot_addr s base i) /\ slot_addr s base i mod al (e_al e) = 0 /\
+     base <= slot_addr s base i /\ slot_addr s base i + e_size e <= base + st_size s).
+Proof.
+  split; [|exact access_aligned].
+  intros f e n base i We Hf Hb Hi. split; [exact (storage_of_aligned f e n base i We Hf Hb Hi)|].
+  split; [exact (storage_of_al f e n Hf)|exact (al_mod_al _ _ (storage_of_al f e n Hf))].
+Qed.
+Print Assumptions C02_element_slots_aligned.
+
+(* What the correspondence run observes is what the specification says, for every family / element type / capacity and
+   every placement of the battery (behind a char, array elements, at arena + alignof(V), second member behind a char,
+   pair::second, etl::array element, nested in inplace_vector / optional / static_vector): all placements are legal
+   addresses for V, no slot is misaligned or outside.  aligned_storage_t<Len> (default alignment): every fundamental type
+   that fits into Len is at most as aligned as the storage. *)
+Theorem C02_alignment_observations_meet_spec :
+  (forall f e n p, elem_wf e -> family_ok f e n -> (forall k, p = PArrayElem k -> 0 <= k) -> fst (align_obs f e n p) = align_spec) /\
+  (forall p v, 0 < m_size v -> m_size v mod al (m_al v) = 0 -> (forall k, p = PArrayElem k -> 0 <= k) -> placement_offset p v mod al (m_al v) = 0) /\
+  (forall len, fst (asdef_obs len) = 0 /\ (forall f, In f fundamental -> fst f <= len -> (snd f <= as_default_al len)%nat)).
+Proof. split; [exact align_obs_spec|split; [exact placement_legal|exact asdef_spec]]. Qed.
+Print Assumptions C02_alignment_observations_meet_spec.
+
+(* The model does not have the property by construction: the byte array of uninitialized_array WITHOUT its alignas(T)
+   gives inplace_vector<T, N> alignment 1; address 1 is then a legal address of the vector and slot 0 is misaligned;
+   behind a char all three slots are (observation [1; 3; 0]); with the alignas the same placement observes [0; 0; 0]. *)
+Theorem C02_missing_alignas_refuted :
+  let e := Elem 8 3 in
+  elem_wf e /\ st_al (storage_iv_no_alignas e 3) = 0%nat /\ 1 mod al (st_al (storage_iv_no_alignas e 3)) = 0 /\
+  access_slot (storage_iv_no_alignas e 3) e 1 0 = Misaligned 1 /\
+  fst (observe (storage_iv_no_alignas e 3) e PBehindChar) = [1; 3; 0] /\
+  fst (observe (storage_of (FInplaceVector false) e 3) e PBehindChar) = [0; 0; 0].
+Proof. exact no_alignas_misaligned. Qed.
+Print Assumptions C02_missing_alignas_refuted.
+
+Example C02_align_nonvacuous :
+  elem_wf (Elem 32 5) /\ family_ok (FInplaceVector false) (Elem 32 5) 3 /\ family_ok (FInplaceFunction false) (Elem 16 4) 1 /\
+  32 mod al (st_al (storage_of (FInplaceVector false) (Elem 32 5) 3)) = 0 /\
+  access_slot (storage_of (FInplaceVector false) (Elem 32 5) 3) (Elem 32 5) 32 2 = Aligned 96.
+Proof. vm_compute. repeat split; try reflexivity; try discriminate; try lia. Qed.
